@@ -217,6 +217,45 @@ func extractC04KeysAndJti(l *lean, akF, mw *ast.File) {
 	}
 	l.def("rsaMeasure", "RsaMeasure", rsaMeasure, rsaMeasure)
 
+	// authenticationCredential: which request headers it reads (every string literal handed to Header.Get / Header.Values or used
+	// as an index of Header, in source order), its conditions and what it returns — the model's Headers.lean / Token.lean mirror these
+	var hdrNames, credConds, credReturns []string
+	for _, fn := range []string{"authenticationCredential", "checkConnectionAuthorization"} {
+		fd := funcDecl(mw, fn)
+		if fd == nil {
+			hdrNames = append(hdrNames, "MISSING:"+fn)
+			continue
+		}
+		ast.Inspect(fd, func(n ast.Node) bool {
+			switch x := n.(type) {
+			case *ast.CallExpr:
+				if sel, ok := x.Fun.(*ast.SelectorExpr); ok && strings.HasSuffix(c04Flat(sel.X), "Header") && len(x.Args) >= 1 {
+					hdrNames = append(hdrNames, sel.Sel.Name+":"+c04Flat(x.Args[0]))
+				}
+			case *ast.IndexExpr:
+				if strings.HasSuffix(c04Flat(x.X), "Header") {
+					hdrNames = append(hdrNames, "index:"+c04Flat(x.Index))
+				}
+			case *ast.IfStmt:
+				if fn == "authenticationCredential" {
+					c := c04Flat(x.Cond)
+					if x.Init != nil {
+						c = c04Flat(x.Init) + "; " + c
+					}
+					credConds = append(credConds, c)
+				}
+			case *ast.ReturnStmt:
+				if fn == "authenticationCredential" {
+					credReturns = append(credReturns, c04Flat(x))
+				}
+			}
+			return true
+		})
+	}
+	l.def("authHeaderReads", "List String", leanStrList(hdrNames), hdrNames)
+	l.def("authCredentialConds", "List String", leanStrList(credConds), credConds)
+	l.def("authCredentialReturns", "List String", leanStrList(credReturns), credReturns)
+
 	var jtiStmts []string
 	if fd := funcDecl(mw, "bestPracticesCheck"); fd != nil {
 		for _, st := range fd.Body.List {
